@@ -57,6 +57,10 @@ def _canonical_name(expr: ast.Name) -> Term:
             return ('attr', ('attr', ('var', 'jax'), 'tree'), TREE_SYNONYMS[target.split('.')[-1]])
         if target.startswith('jax.tree.'):
             return ('attr', ('attr', ('var', 'jax'), 'tree'), target.split('.')[-1])
+        # from <module with a conventional alias> import name  ->  alias.name
+        head, _, last = target.rpartition('.')
+        if head in ('jax.numpy', 'numpy', 'jax.scipy.linalg', 'jax.lax', 'functools', 'operator', 'math') and last:
+            return ('attr', ('var', CANONICAL_ALIAS[head]), last)
     return ('var', expr.id)
 
 
@@ -84,10 +88,25 @@ def _qualified(f: ast.AST) -> str | None:
     return '.'.join([head] + parts[::-1])
 
 
+# positional parameters of a few external functions the package passes positionally, and keyword arguments that only
+# restate a default (dropping them changes nothing)
+EXTERNAL_SIGNATURES = {'moveaxis': ['a', 'source', 'destination'], 'broadcast_to': ['array', 'shape']}
+EXTERNAL_DEFAULTS = {
+    'concatenate': {'axis': ('const', '0')}, 'diag': {'k': ('const', '0')}, 'pad': {'mode': ('const', "'constant'")},
+    'unique': {'return_index': ('const', 'False'), 'return_inverse': ('const', 'False'), 'axis': ('const', 'None')},
+    'add': {'mode': ('const', 'None')}, 'set': {'mode': ('const', 'None')},
+    'leaves': {'is_leaf': ('const', 'None')}, 'map': {'is_leaf': ('const', 'None')}, 'tree_leaves': {'is_leaf': ('const', 'None')}, 'tree_map': {'is_leaf': ('const', 'None')},
+    'ang2pix': {'nest': ('const', 'False'), 'lonlat': ('const', 'False')},
+}
+
+
 def _positional(fname: str | None, args: tuple, kwargs: tuple) -> tuple[tuple, tuple]:
-    if not kwargs or fname is None or fname not in SIGNATURES:
+    if kwargs and fname in EXTERNAL_DEFAULTS and fname not in SIGNATURES:
+        d = EXTERNAL_DEFAULTS[fname]
+        kwargs = tuple((k, v) for k, v in kwargs if d.get(k) != v)
+    if not kwargs or fname is None or (fname not in SIGNATURES and fname not in EXTERNAL_SIGNATURES):
         return args, kwargs
-    params = SIGNATURES[fname]
+    params = SIGNATURES.get(fname) or EXTERNAL_SIGNATURES[fname]
     kw = dict(kwargs)
     out = list(args)
     while len(out) < len(params) and params[len(out)] in kw:
@@ -172,6 +191,9 @@ def term(expr: ast.AST | None, env: dict[str, Term] | None = None) -> Term:
             return ('comp', elt, ((tgt, args[1], ()),))
         if isinstance(f, ast.Name) and f.id == 'list' and len(args) == 1 and not kwargs and args[0][0] == 'comp' and isinstance(expr.args[0], (ast.GeneratorExp, ast.Call)):
             return args[0]
+        # typing.cast(T, x) is x
+        if q in ('typing.cast', 'typing_extensions.cast') and len(args) == 2 and not kwargs:
+            return args[1]
         # jnp.logical_and(a, b) is a & b on boolean arrays (likewise or / not)
         if q in ('jax.numpy.logical_and', 'numpy.logical_and', 'jax.numpy.logical_or', 'numpy.logical_or') and len(args) == 2 and not kwargs:
             return ('binop', '&' if q.endswith('and') else '|', args[0], args[1])
